@@ -534,3 +534,25 @@ V("c02-silent-helper-noise", "C02", "silent", AN, "                    noise = s
 V("c07-chain-test-by-sum", "C07", "fire", UT, "    return (A == chain_graph(p)).all()", "    ix = np.arange(p - 1)\n    return bool(A.sum() == p - 1 and (A[ix, ix + 1] != 0).all())", rule="PAT", what="chain test spoofed by weights that sum to p-1")
 V("c07-silent-chain-array-equal", "C07", "silent", UT, "    return (A == chain_graph(p)).all()", "    return np.array_equal(A, chain_graph(p))", what="array_equal spelling of the exact chain test")
 V("c14-memoised-chain-mec", "C14", "fire", UT, "from functools import reduce\n", "from functools import reduce, lru_cache\n", more=[(UT, "def chain_graph_MEC(p):", "@lru_cache(maxsize=None)\ndef chain_graph_MEC(p):")], rule="M4", what="memoised function hands out one shared array")
+
+# ------------------------------------------------------------------------------- C07 orientations
+V("c07-orient-same-columns", "C07", "fire", UT, "oriented_edges[flipped == False, :] = undirected_edges[:, [0, 1]][flipped == False]", "oriented_edges[flipped == False, :] = undirected_edges[:, [1, 0]][flipped == False]", rule="ORIENTATIONS.both-ways", what="both choices give the same orientation: half of the extensions are never generated")
+V("c07-orient-mask-not-complement", "C07", "fire", UT, "oriented_edges[flipped == False, :] = undirected_edges[:, [0, 1]][flipped == False]", "oriented_edges[flipped, :] = undirected_edges[:, [0, 1]][flipped]", rule="ORIENTATIONS.both-ways", what="unflipped edges keep stale orientations of the previous combination")
+V("c07-product-one-short", "C07", "fire", UT, "combinations = cartesian([np.array([True, False])] * len(undirected_edges), dtype=bool)", "combinations = cartesian([np.array([True, False])] * (len(undirected_edges) - 1) + [np.array([True])], dtype=bool)", rule="ORIENTATIONS.product", what="last undirected edge only ever oriented one way", accept_inconclusive=True)
+V("c07-silent-orient-not", "C07", "silent", UT, "oriented_edges[flipped == False, :] = undirected_edges[:, [0, 1]][flipped == False]", "oriented_edges[~flipped, :] = undirected_edges[~flipped]", what="~mask and plain rows for the unflipped edges")
+
+# ------------------------------------------------------------------------------- C01 round-2 inspired
+PARSE_OLD = """        if type(params) == tuple and len(params) == 2:
+            interventions.append([target, params[0], params[1]])
+        # Only mean provided, assume we're setting the variable to a deterministic value
+        elif type(params) in [float, int]:
+            interventions.append([target, params, 0])
+        else:
+            raise ValueError("Wrongly specified intervention")
+"""
+V("c01-parse-variance-carried", "C01", "fire", LG, "    interventions = []\n    for (target, params) in interventions_dict.items():\n        # Mean and variance provided\n" + PARSE_OLD,
+  "    interventions = []\n    variance = 0\n    for (target, params) in interventions_dict.items():\n        if type(params) == tuple and len(params) == 2:\n            mean, variance = params\n        elif type(params) in [float, int]:\n            mean = params\n        else:\n            raise ValueError(\"Wrongly specified intervention\")\n        interventions.append([target, mean, variance])\n",
+  rule="LAYOUT.producer", what="a scalar entry after a tuple entry inherits that tuple's variance")
+V("c01-silent-parse-single-append", "C01", "silent", LG, "    interventions = []\n    for (target, params) in interventions_dict.items():\n        # Mean and variance provided\n" + PARSE_OLD,
+  "    interventions = []\n    for (target, params) in interventions_dict.items():\n        if type(params) == tuple and len(params) == 2:\n            mean, variance = params\n        elif type(params) in [float, int]:\n            mean, variance = params, 0\n        else:\n            raise ValueError(\"Wrongly specified intervention\")\n        interventions.append([target, mean, variance])\n",
+  what="single append with both fields set in every branch")
